@@ -161,6 +161,7 @@ def plan_for(world, positions):
             tree += c06.POLICY_NODES
     ops += gen.layered_read_ops(read, cb=cb, init=world["init"])
     ops.append({"op": "errLocation", "tag": "loc"})
+    ops.append({"op": "errLocation", "tag": "loc_again"})      # asking twice gives the same answer
     ops.append({"op": "readFile", "o": 8, "path": "$ROOT/nosuch/file.conf", "delim": D, "comment": C, "tag": "missing"})
     # missing in another way: a path component is a regular file (ENOTDIR), the name is too long for the file system
     ops.append({"op": "readFile", "o": 8, "path": "$ROOT/stale/good.conf/child.conf", "delim": D, "comment": C, "tag": "missing"})
@@ -212,6 +213,9 @@ def check(world, plans, results):
             continue
         if norm(loc.get("file") or "") != tpath or loc.get("line") != line:
             v.fail("location", "plan %d: %s at line %d of %s: econf_errLocation says %r line %r" % (k, kind, line, tpath, loc.get("file"), loc.get("line")))
+        loc2 = tagged(plan, res, "loc_again")
+        if loc2 is not None and (norm(loc2.get("file") or "") != norm(loc.get("file") or "") or loc2.get("line") != loc.get("line")):
+            v.fail("location:again", "plan %d: econf_errLocation answered %r line %r, asked again %r line %r" % (k, loc.get("file"), loc.get("line"), loc2.get("file"), loc2.get("line")))
         if rd["out"] == "obj":
             if world["ep"].startswith("readDirsHistory"):
                 v.fail("partial", "plan %d: a history was handed back by a failing read" % k)
